@@ -3,6 +3,7 @@ from common import TB_COMMON
 
 PROP = {
     'lean_modules': ['CapyV.Props.C15'],
+    'needs_cli': True,
     'level': 'proof',
     "trusted_base": TB_COMMON + [
         'hand transcription of get_const / const_data / the ArrayDecl, EnumDecl and evaluate_comptime_args use sites and '
